@@ -1086,12 +1086,20 @@ def _kron_layout(term, ns):
             if d in ("-1", "?"):
                 # takes what the remaining named dims leave over
                 need_after = 1
+                n_sym_after = 0
                 for d2 in dims[j + 1:]:
                     if str(d2) in ("-1", "?"):
                         raise Lost()
+                    if not str(d2).lstrip("-").isdigit():
+                        n_sym_after += 1  # a symbolic size after the inferred one: the trailing axis, standing by itself
+                        continue
                     need_after *= int(d2)
                 rest = flat[pos:]
                 k_ = len(rest)
+                if n_sym_after:
+                    if n_sym_after != 1 or not rest or rest[-1] != "T" or str(dims[-1]).lstrip("-").isdigit():
+                        raise Lost()
+                    k_ -= 1
                 sz = 1
                 while k_ > 0 and sz < need_after:
                     k_ -= 1
@@ -1164,6 +1172,19 @@ def _kron_layout(term, ns):
             if len(l_) < n_:
                 raise Lost()
             return l_[:-n_] + [tuple(atoms(l_[-n_:]))]
+        if a.op == "view" and isinstance(a.args[1], str) and a.args[1].startswith("regroup:"):
+            # the same factors in the same row-major order, cut into other groups (reshape back to a shape taken earlier): as many
+            # factors per new axis as the description says
+            counts = [int(x_) for x_ in a.args[1][8:].split(",")]
+            flat = atoms(lay(a.args[0]))
+            if sum(counts) != len(flat):
+                raise Lost()
+            out, pos = [], 0
+            for c_ in counts:
+                grp = flat[pos:pos + c_]
+                pos += c_
+                out.append(grp[0] if c_ == 1 else tuple(grp))
+            return out
         if a.op == "permute":
             l_ = lay(a.args[0])
             order = list(a.args[1])
